@@ -94,12 +94,14 @@ class Session:
         self.source = {'substitutions': [], 'sections': None, 'section': None, 'independent': None,
                        'section_group': None, 'success': True, 'section_pattern': None}
         source = self.source
-        rep = self.report = Obj('report', submission=sub)
+        # the report's group stack is the real one (Report.start_group / stop_group are interpreted), with a group of
+        # the instructor's already active, as inside a question or an assertion group
+        rmod = ctx.repo.module('pedal.core.report')
+        rep = self.report = Obj('report', submission=sub, groups=['instructor-group'])
+        rep.attrs['__classdef__'] = rmod.cls('Report')
         rep.attrs['method:__getitem__'] = lambda k: source if k == self.tool else None
         rep.attrs['method:execute_hooks'] = lambda *a: None
         rep.attrs['method:add_hook'] = lambda *a, **k: log.append(('add_hook',) + tuple(a[:1]))
-        rep.attrs['method:stop_group'] = lambda g: log.append(('stop_group', g))
-        rep.attrs['method:start_group'] = lambda g: log.append(('start_group', g))
 
     def _fd(self):
         from ..fdeval import module_resolver
@@ -186,6 +188,18 @@ def r3_next_section_table(ctx, sym, mod, pattern_text):
                 ctx.check(bool(mains) and mains[0] == text, 'R3', key + ':restores-first', mod, fn,
                           "next_section does not restore the original file before advancing",
                           "section text accumulates wrongly", construct='next_section')
+            else:
+                # having asked for sections past the end, the session still ends cleanly
+                e = sess.stop()
+                ctx.check(e is None and sess.submission.attrs['main_code'] == text and
+                          sess.report.attrs['groups'] == ['instructor-group'], 'R3',
+                          'stop-after-past-the-end[%r,%s]' % (text[:24], 'independent' if independent else 'cumulative'),
+                          mod, mod.func('stop_sections'),
+                          "after asking for sections past the end, stop_sections %s; main code %r, open groups %r" % (
+                              'raises %s (%s)' % (e.kind, e.detail) if e is not None else 'returns',
+                              sess.submission.attrs['main_code'][:30], sess.report.attrs['groups']),
+                          "a submission with fewer sections than the grader asks for, inside an instructor's own "
+                          "feedback group: next_section()/stop_sections()/resolve() raise ValueError")
 
 
 def r2_offset_discipline(ctx, sym):
